@@ -11,6 +11,7 @@ Everything is generated from the tree inventory; nothing is hand-listed per unit
 import random
 
 from . import apisurface
+from . import usermain
 
 
 FULL_PROBE_LIMIT = 12
@@ -49,6 +50,8 @@ def includes_multi(tree, sel, order_seed, tu):
     incs += list(sel.get("main_files") or [])
     if sel.get("io", True):
         incs.append("au/io.hh")
+    if sel.get("user_main") and tu.startswith("probe"):
+        incs.append(usermain.INCLUDE_NAME)  # the user's own header, a real file next to the sources
     seen = set()
     incs = [i for i in incs if not (i in seen or seen.add(i))]
     if order_seed is not None:
@@ -244,6 +247,8 @@ def body_main(tree, sel, probe_cfg):
         out.append('        std::printf("io %s\\n", oss.str().c_str());')
         out.append("    }")
     out.append(apisurface.calls(probe_cfg, io))
+    if sel.get("user_main"):
+        out += usermain.probe_lines(tree, sel["user_main"])
     if probe_cfg.get("user_macros"):
         for n in tree.macro_names:
             out.append("#ifdef %s" % n)
@@ -361,4 +366,7 @@ def sources(tree, sel, probe_cfg, variant):
         # included, inspected afterwards.  Both packagings must leave them in the same state.
         main = "".join("#define %s %d\n" % (n, 12345 + i) for i, n in enumerate(tree.macro_names)) + main
     other = "\n".join(preamble(tree, sel, variant, seed, "other", 1)) + "\n" + body_other(tree, sel)
-    return {"probe.cc": main, "other.cc": other, "fine.cc": fine_source(sel, variant)}
+    src = {"probe.cc": main, "other.cc": other, "fine.cc": fine_source(sel, variant)}
+    if sel.get("user_main") and variant == "multi":
+        src[usermain.INCLUDE_NAME] = usermain.text(tree, sel["user_main"])
+    return src
